@@ -229,6 +229,8 @@ def check(ctx):
                       "unguarded invocation path: %s" % (" -> ".join(chains[0]) if chains else "closure never reaches an invocation"),
                       extra="lazy")
     ctx.floor("R3", "fastrace", n, 8, "property-taking methods")
+    from .. import fixtures
+    fixtures.lazy_detector(ctx, "R3", Lazy, recording_edges)
     rule_not_recording(ctx, E, lazy.prov)
 
 
